@@ -198,10 +198,158 @@ Definition probe_path_unfixed (root raw : str) : str := raw.                 (* 
 Definition probe_path (root rel : str) : str := join root rel.               (* repaired: `self.root.join(&rel)` *)
 Definition restore_path (root rel : str) : str := join root rel.             (* rewind: `self.root.join(&file.path)` *)
 
+(* ---------- what the tools do with a resolved path ----------
+   Every file-system / process call of a path-taking tool takes a path DERIVED from the resolver's result p:
+     0 the workspace root itself (a command without a cwd argument),  1 p,
+     2 p.parent() -> create_dir_all (the chain of ancestors up to the first existing directory), reached only after a
+       file-system check that p is not the root (`!dest.exists()`, a successful `fs::read` of the same file),
+     12 the same without such a check (the write tool: guarded by its `file_name().is_none()` refusal instead),
+     3 / 13 p.with_extension(tmp-<uuid>) (the atomic write's temporary file), guarded likewise,
+     4 an entry of the directory walk started at p (p joined with any number of directory-entry names).
+   tools/gen/resolvers.py reads the (operation, derivation) list of every tool from the source (tie T1): a call whose
+   argument is anything else gets derivation 99 and the obligation fails. *)
+(* Path::parent / file_name / file_stem / with_extension (Unix), for the ABSOLUTE paths rip hands them *)
+Definition body_segs (p : str) : list str := match segs p with _ :: r => r | [] => [] end.
+Definition parent (p : str) : option str :=
+  match drop_trivial (rev (body_segs p)) with
+  | _ :: br => Some (47 :: join_segs (rev (drop_trivial br)))
+  | [] => None
+  end.
+Definition file_name (p : str) : option str :=
+  match drop_trivial (rev (segs p)) with
+  | s :: _ => if seg_dotdot s then None else Some s
+  | [] => None
+  end.
+Fixpoint split_first (c : N) (acc s : list N) : option (list N * list N) :=
+  match s with
+  | [] => None
+  | x :: r => if x =? c then Some (acc, r) else split_first c (x :: acc) r
+  end.
+(* file_stem: the name up to its LAST '.', the whole name when that dot is its first character *)
+Definition stem (n : str) : str :=
+  if seg_dotdot n then n
+  else match split_first 46 [] (rev n) with
+       | Some (_, before_rev) => match before_rev with [] => n | _ => rev before_rev end
+       | None => n
+       end.
+(* Path::extension: what follows the last '.' of the file name (None for "..", for a name without a dot and for a
+   name whose only dot is its first character) *)
+Definition extension (p : str) : option str :=
+  match file_name p with
+  | Some n => match split_first 46 [] (rev n) with
+              | Some (after, before_rev) => match before_rev with [] => None | _ => Some after end
+              | None => None
+              end
+  | None => None
+  end.
+(* PathBuf::set_extension: truncate right after the stem of the file name, push '.' and the new extension; nothing
+   happens to a path without a file name *)
+Definition set_ext (q ext : str) : str :=
+  match drop_trivial (rev (segs q)) with
+  | s :: br => if seg_dotdot s then q else join_segs (rev br ++ [stem s ++ 46 :: ext])
+  | [] => q
+  end.
+(* Path::with_extension as std implements it: the text of the path WITHOUT ITS LAST len(extension) BYTES (whatever
+   they are: the extension itself when the path ends with its file name), then set_extension.  For a file name
+   `..x` (x without a dot) the cut leaves `..` - a path without a file name - and the result is the PARENT directory:
+   the atomic write of such a name tries to write its temporary file onto the directory above (always EISDIR). *)
+Definition cut_ext (p : str) : str :=
+  match extension p with
+  | Some e => firstn (length p - length e) p
+  | None => p
+  end.
+Definition with_extension (p ext : str) : str := set_ext (cut_ext p) ext.
+(* a directory-entry name: no separator, not '', '.', '..' *)
+Definition proper_name (n : str) : bool := negb (existsb (N.eqb 47) n) && negb (seg_trivial n) && negb (seg_dotdot n).
+Definition descend (p : str) (names : list str) : str := fold_left join names p.
+
+Definition nonroot (root p : str) : bool := negb (list_eqb lN_eqb (real_segs p) (real_segs root)).
+(* fs::create_dir_all q: q, then its parent, ... up to the first one that exists *)
+Fixpoint mkdir_chain (ex : str -> bool) (fuel : nat) (q : str) : list str :=
+  match fuel with
+  | O => [q]
+  | S f => q :: (if ex q then [] else match parent q with Some q' => mkdir_chain ex f q' | None => [] end)
+  end.
+Definition parent_chain (ex : str -> bool) (p : str) : list str :=
+  match parent p with Some q => mkdir_chain ex (length p) q | None => [] end.
+Definition deriv_paths (ex : str -> bool) (root p ext : str) (names : list str) (d : N) : list str :=
+  match d with
+  | 0 => [root]
+  | 1 => [p]
+  | 2 => if nonroot root p then parent_chain ex p else []
+  | 12 => parent_chain ex p
+  | 3 => if nonroot root p then [with_extension p ext] else []
+  | 13 => [with_extension p ext]
+  | 4 => [descend p names]
+  | _ => [[]]      (* an argument that is not derived from the resolver's result: the process working directory *)
+  end.
+
+Inductive tool := TRead | TWrite | TLs | TGrep | TCwd | TCwdDefault | TPatchAdd | TPatchDelete | TPatchUpdate | TPatchMoveTo
+                | TPatchRevert | TCkptCreate | TRewind.
+Definition tool_id (t : tool) : N :=
+  match t with TRead => 20 | TWrite => 21 | TLs => 22 | TGrep => 23 | TCwd => 24 | TCwdDefault => 27 | TPatchAdd => 40
+             | TPatchDelete => 41 | TPatchUpdate => 42 | TPatchMoveTo => 43 | TCkptCreate => 44 | TRewind => 45
+             | TPatchRevert => 46 end.
+(* operations: 1 open/read, 2 stat (exists / is_dir), 3 create_dir_all, 4 write (create or truncate), 5 append,
+   6 remove_file, 7 rename (either side), 8 directory walk, 9 chdir of the child process, 10 remove empty directories *)
+(* 24/27 bash tool with / without a cwd argument, 25/28 pipes task, 26/29 pty task; 40-43 the four patch headers
+   (record_undo included), 46 apply_patch's undo (revert_paths) on a path it resolved before; 44 checkpoint create
+   (the source side; the store copy is c13_checkpoint_store_copy_confined), 45 rewind (snapshot, restore, undo) *)
+Definition expected_progs : list (N * list (N * N)) :=
+  [(20, [(1, 1)]);
+   (21, [(3, 12); (5, 1); (4, 13); (2, 1); (6, 1); (6, 13); (7, 13); (7, 1); (6, 13); (4, 1)]);
+   (22, [(8, 1)]);
+   (23, [(8, 1); (1, 4)]);
+   (24, [(9, 1)]); (27, [(9, 0)]);
+   (25, [(9, 1)]); (28, [(9, 0)]);
+   (26, [(9, 1)]); (29, [(9, 0)]);
+   (40, [(2, 1); (2, 1); (1, 1); (3, 2); (4, 1)]);
+   (41, [(2, 1); (2, 1); (1, 1); (6, 1)]);
+   (42, [(2, 1); (2, 1); (1, 1); (1, 1); (4, 1)]);
+   (43, [(2, 1); (2, 1); (1, 1); (3, 2); (7, 1); (7, 1)]);
+   (44, [(2, 1); (1, 1)]);
+   (45, [(2, 1); (1, 1); (3, 2); (4, 1); (2, 1); (6, 1); (3, 2); (4, 1); (6, 1)]);
+   (46, [(2, 1); (10, 4); (3, 2); (4, 1); (6, 1)])].
+Definition op_eqb (a b : N * N) : bool := (fst a =? fst b) && (snd a =? snd b).
+Definition prog_eqb (a b : N * list (N * N)) : bool := (fst a =? fst b) && list_eqb op_eqb (snd a) (snd b).
+Definition tools_wf (found : bool) (progs : list (N * list (N * N))) : bool :=
+  found && list_eqb prog_eqb progs expected_progs.
+Fixpoint prog_of (l : list (N * list (N * N))) (id : N) : list (N * N) :=
+  match l with [] => [] | (i, s) :: r => if i =? id then s else prog_of r id end.
+
+Definition V_NOFILE : N := 6.   (* "path must name a file" *)
+Definition tool_path (t : tool) (root raw : str) : res str :=
+  match t with
+  | TRead | TWrite | TLs | TGrep | TCwd | TRewind => resolve_tool root raw
+  | TCwdDefault => Ok root
+  | TPatchAdd | TPatchDelete | TPatchUpdate | TPatchMoveTo | TPatchRevert => patch_target root raw
+  | TCkptCreate => match to_relative root raw with Ok rel => Ok (join root rel) | Err e => Err e end
+  end.
+Definition tool_refuses_dir (t : tool) (raw : str) : bool :=
+  match t with TWrite => match file_name raw with None => true | Some _ => false end | _ => false end.
+(* verdict and the (operation, path) accesses of one tool call *)
+Definition tool_run (progs : list (N * list (N * N))) (t : tool) (ex : str -> bool) (root raw ext : str) (names : list str)
+  : N * list (N * str) :=
+  match tool_path t root raw with
+  | Err e => (e, [])
+  | Ok p =>
+    if tool_refuses_dir t raw then (V_NOFILE, [])
+    else (0, flat_map (fun od => map (fun q => (fst od, q)) (deriv_paths ex root p ext names (snd od))) (prog_of progs (tool_id t)))
+  end.
+(* the write tool before 0a47111: no refusal of a path without a file name *)
+Definition tool_run_unguarded (progs : list (N * list (N * N))) (t : tool) (ex : str -> bool) (root raw ext : str) (names : list str)
+  : N * list (N * str) :=
+  match tool_path t root raw with
+  | Err e => (e, [])
+  | Ok p => (0, flat_map (fun od => map (fun q => (fst od, q)) (deriv_paths ex root p ext names (snd od))) (prog_of progs (tool_id t)))
+  end.
+
 (* ---------- correspondence (harness/src/bin/c13.rs) ---------- *)
 Record case := {
   c_kind : N;            (* 0 file tool / bash cwd, 1 patch header, 2 apply_patch tool, 3 checkpoint create,
-                            4 auto-checkpoint of write, 5 auto-checkpoint of apply_patch, 6 rewind id, 7 task cwd *)
+                            4 auto-checkpoint of write, 5 auto-checkpoint of apply_patch, 6 rewind id, 7 task cwd,
+                            8 bash / task without a cwd argument, 10 a recorded path read back by rewind,
+                            11 Path::parent / with_extension of root.join(raw), Path::file_name of raw *)
   c_root : str;
   c_raw : str;
   c_verdict : N;
@@ -234,6 +382,9 @@ Definition model_result (c : case) : res str :=
   | 3 => to_relative (c_root c) (c_raw c)
   | 4 => match auto_write_paths (c_raw c) with Ok p => to_relative (c_root c) p | Err e => Err e end
   | 5 => match parse_rel_path (c_raw c) with Ok p => to_relative (c_root c) p | Err e => Err e end
+  | 8 => Ok (c_root c)
+  | 10 => resolve_tool (c_root c) (c_raw c)
+  | 11 => Ok (join (c_root c) (c_raw c))
   | _ => Err V_OTHER
   end.
 (* the tool that runs after the auto-checkpoint *)
@@ -249,10 +400,16 @@ Definition model_verdict (c : case) : N :=
   | _ => verdict_of (model_result c)
   end.
 
+Definition ext_x : str := [116; 109; 112; 45; 88].    (* "tmp-X" *)
+Definition enc_opt (o : option str) : str := match o with Some x => x | None => [] end.
+Definition std_obs (c : case) : list str :=
+  let p := join (c_root c) (c_raw c) in [enc_opt (parent p); with_extension p ext_x; enc_opt (file_name (c_raw c))].
+
 Definition check_case (c : case) : bool :=
   (model_verdict c =? c_verdict c) &&
   match c_kind c with
-  | 0 | 2 => eff_ok c (model_result c)
+  | 0 | 2 | 8 => eff_ok c (model_result c)
+  | 11 => lstr_eqb (std_obs c) (c_eff c)
   | 1 | 7 => out_ok c (model_result c)
   | 3 => out_ok_if_any c (model_result c)
   | 4 | 5 => out_ok_if_any c (model_result c) && eff_ok c (model_tool c)
